@@ -584,6 +584,56 @@ def run(c, facts, tier):
     c.ob("C01.lex-whole", lexfn, "lexing consumes the whole input or fails", ok, detail, witness="-true -bogus" if ok is False else None)
     c.floor("precedence levels + atom alternatives + operator words", len(levels) + len(alts) + len(spec["lex"]), 3 + 4 + 8)
 
+    # ---------------------------------------------------------------- token equality and the public entry point
+    tok = facts.enum(spec["token_enum"])
+    manual_eq = [i for _, _, i in facts.impls if F.norm_ty(i["self_ty"]) == spec["token_enum"] and i["trait"] and F.norm_ty(i["trait"]).split("::")[-1].split("<")[0] in ("PartialEq", "Eq")]
+    c.ob("C01.token-eq", spec["token_enum"], "token equality is the derived structural equality", "PartialEq" in facts.derives(tok) and not manual_eq, "derives %s; hand-written PartialEq impls: %d (one_of(Token::X) compares with ==)" % (facts.derives(tok), len(manual_eq)))
+    ct = [fn for k, fn in facts.fns.items() if fn.name == "contains_token" and not fn.test and fn.impl is not None and F.norm_ty(fn.impl["self_ty"]) == spec["token_enum"]]
+    okct = False
+    if len(ct) == 1:
+        t = rx.tail_expr(ct[0].body)
+        pn = ct[0].params[0][0] if ct[0].params else None
+        okct = t is not None and len(ct[0].body["stmts"]) == 1 and t["k"] == "binary" and t["op"] == "==" and {src(rx.peel(t["lhs"])), src(rx.peel(t["rhs"]))} == {"self", pn}
+    c.ob("C01.token-eq", "<Token as ContainsToken<Token>>::contains_token", "one_of(token) matches exactly that token", okct, "contains_token = `%s`" % (src(rx.tail_expr(ct[0].body)) if ct else None))
+    pubk = an.role("parse_pub")
+    pubf = facts.fn(pubk)
+    innerk = an.role("parse_inner")
+    t = rx.tail_expr(pubf.body)
+    okapi, det = None, "shape of %s not recognised" % pubk
+    if t is not None:
+        base, chain = rx.method_chain(t)
+        ms = [m_ for m_, _, _ in chain]
+        callee_ok = base["k"] == "call" and base["f"]["k"] == "path" and base["f"]["segs"][-1] == innerk.split("::")[-1]
+        okapi = callee_ok and ms in (["or_else"], ["map_err"])
+        det = "%s returns %s(..).%s: the tree and the options produced by the inner parser reach the caller unchanged: %s" % (pubk, innerk.split("::")[-1], ".".join(ms), okapi)
+        # statements before the tail may only bind the input
+        pre = [st for st in pubf.body["stmts"][:-1] if not (st["k"] == "let" and st["init"] is not None and src(st["init"]).endswith(".as_ref()"))]
+        if pre:
+            okapi, det = False, det + "; extra statements: %s" % [src(x)[:60] for x in pre]
+    c.ob("C01.api", pubk, "parse() returns the inner result untouched", okapi, det)
+    infb = facts.fn(innerk)
+    tl = rx.tail_expr(infb.body)
+    okr = False
+    if tl is not None and tl["k"] == "call" and rx.path_str(tl["f"]) == "Ok" and tl["args"] and tl["args"][0]["k"] == "tuple" and len(tl["args"][0]["elems"]) == 2:
+        second = tl["args"][0]["elems"][1]
+        base, chain = rx.method_chain(second)
+        ms = [m_ for m_, _, _ in chain]
+        okr = ms in (["parse_next", "?"],) and rx.is_var(tl["args"][0]["elems"][0])
+    c.ob("C01.api", innerk, "the tree returned is the precedence parser's result", okr, "tail `%s`" % (src(tl)[:100] if tl else None))
+    # lex: the closure after the repetition is the projection on the token list
+    lb = lfb["tail"] if lfb["tail"] is not None else None
+    okproj = None
+    n_ = lb
+    while n_ is not None and n_["t"] in ("ctx", "cut"):
+        n_ = n_["p"]
+    if n_ is not None and n_["t"] == "map":
+        f_ = n_["f"]
+        if f_["k"] == "closure" and len(f_["params"]) == 1:
+            prm = rx.closure_params(f_)[0]
+            okproj = prm["k"] == "tuple" and len(prm["elems"]) == 2 and prm["elems"][0]["k"] == "ident" and rx.is_var(rx.closure_body(f_), prm["elems"][0]["name"])
+    elif n_ is not None:
+        okproj = True
+    c.ob("C01.lex-whole", lexfn, "lex returns the collected tokens unchanged", okproj, "closure after repeat_till is the projection |(tokens, _)| tokens: %s" % okproj)
     if tier == "thorough":
         engine_crosscheck(c, facts, b, g)
     # ---------------------------------------------------------------- positive control
